@@ -6,6 +6,7 @@ import (
 	"encoding/json"
 	"os"
 	"reflect"
+	"strconv"
 	"sync"
 )
 
@@ -21,6 +22,9 @@ func norm(v any) any {
 			return []int{}
 		}
 		if rv.Type().Elem().Kind() == reflect.Int {
+			if a, ok := v.([]int); ok {
+				return Ints(a)
+			}
 			return v
 		}
 		out := make([]any, rv.Len())
@@ -116,9 +120,24 @@ func (t *Writer) Close() error {
 	return t.f.Close()
 }
 
+// Ints is a []int with a fast JSON encoding (byte strings of 64 kB are logged thousands of times).
+type Ints []int
+
+func (a Ints) MarshalJSON() ([]byte, error) {
+	buf := make([]byte, 0, 4*len(a)+2)
+	buf = append(buf, '[')
+	for i, x := range a {
+		if i > 0 {
+			buf = append(buf, ',')
+		}
+		buf = strconv.AppendInt(buf, int64(x), 10)
+	}
+	return append(buf, ']'), nil
+}
+
 // B converts a byte slice into a JSON array of numbers (encoding/json would base64 a []byte).
-func B(b []byte) []int {
-	out := make([]int, len(b))
+func B(b []byte) Ints {
+	out := make(Ints, len(b))
 	for i, x := range b {
 		out[i] = int(x)
 	}
